@@ -89,6 +89,12 @@ def lines(msg):
 # -- random module trees / relations -------------------------------------------------
 
 LEAF_NAMES = ["a", "b", "c", "d", "e", "x", "y", "z", "p", "q", "util", "core", "__init__", "ab", "a_b", "r", "m1", "v2"]
+# legal but unusual identifiers: non-ASCII first letters (sort after every ASCII name), combining marks and U+00B7 (identifier
+# characters that are not \w / word characters), names differing only in case or in the zero padding of a number,
+# names starting with "py" / containing "init"
+UNUSUAL_NAMES = ["größe", "überblick", "данные", "ข้อมูล", "a·b", "Models", "models", "m01", "Ab", "py", "pyx", "init_x"]
+LEAF_NAMES = LEAF_NAMES + UNUSUAL_NAMES
+TWINS = {"m1": "m01", "m01": "m1", "models": "Models", "Models": "models", "ab": "Ab", "Ab": "ab", "a·b": "a", "py": "pyx"}
 
 
 def random_tree(rnd: random.Random, n_min=8, n_max=14, depth=4, root="r", names=LEAF_NAMES):
@@ -105,6 +111,9 @@ def random_tree(rnd: random.Random, n_min=8, n_max=14, depth=4, root="r", names=
         m = parent + "." + rnd.choice(names)
         if m not in mods:
             mods.append(m)
+            twin = TWINS.get(m.rsplit(".", 1)[1])
+            if twin and twin in names and rnd.random() < 0.5 and parent + "." + twin not in mods:
+                mods.append(parent + "." + twin)  # siblings that differ only in case / zero padding / a non-word character
     return mods
 
 
